@@ -3,13 +3,22 @@ RULE = ("random engines (1-3 exchanges with links healthy/closed(receiver droppe
         "Engine::process: SendOpenRequests / SendCancelRequests commands (requests addressed to the instrument's exchange, another exchange or an unknown exchange index), "
         "CancelOrders / ClosePositions with filters, trading-state toggles, order snapshots, cancel responses, fills, prices, shutdown; 55% of events come with a scripted "
         "strategy output (0-2 cancels, 0-2 opens, 25% of them with client order ids the scripted risk manager refuses). Observed: what every execution receiver got during the tick, "
-        "the audit outputs/errors, every instrument's order table, trading state. Distinct by SHA-1 of op lines; non-trivial when the observations change at least once")
+        "the audit outputs/errors, every instrument's order table, trading state. Distinct by SHA-1 of op lines; non-trivial when the observations change at least once. "
+        "Plus a separately seeded input-domain family (one `d` case per five random ones, same op vocabulary; corpus/C03/domain.ops holds fixed instances): open requests with prices / quantities over "
+        "the signed Decimal domain (0, negative, fractional, 1e-8, 1e12), client order ids 0 / 4999 / 5000.. / 8999 also in COMMANDS (commands bypass the risk manager: a cid the scripted risk manager "
+        "would refuse is sent), exchange indices far beyond the link table, empty commands (OneOrMany::Many([])) and batches of 6-12 requests per command / strategy output, filters with several elements "
+        "(OneOrMany::Many: duplicates, known + unknown exchange, out-of-range instrument, reversed / degenerate / unknown underlyings), order snapshots OpenInFlight / fully filled / over-filled / zero "
+        "quantity / negative or far-ahead exchange time, fills and prices with fractional / 1e-8 / 1e12 magnitudes and price 0 / negative, up to 6 instruments, every tenth case a history of 120-200 events")
 ASSUMPTIONS = [
     "PARTIAL (runtime): an unbounded tokio mpsc channel accepts a send iff its receiver is alive and delivers FIFO - assumption of the model, exercised (not proved) by the correspondence run",
     "links: besides healthy / receiver dropped / no transmitter, the generic MultiExchangeTxMap<Tx> is also instantiated with a transmitter that refuses every item with an error that is not is_unrecoverable() "
     "(letter U; the default UnboundedTx can never answer that, the engine's Recoverable(ExecutionChannelUnhealthy) arm exists for every other Tx): reported failed, not fatal, not delivered, no in-flight mark, the tick goes on",
     "strategy output and risk verdict are arbitrary per-tick inputs (the risk manager is modelled as a partition of the strategy's requests by a predicate on the order key)",
     "requests name instruments the engine knows (record_in_flight panics otherwise)",
+    "protocol limits of the shared engine protocol (harness/src/engine_proto.rs + Driver/EngineCommon.lean), found by the input-domain audit and NOT generated: `ev fill` is a fill on a FLAT instrument "
+    "(the engine model sets the position; increasing / flipping fills are C02's subject); the link table is fixed per case (a link that dies mid-history, or a transmitter that fails intermittently, cannot be "
+    "expressed: per tick the theorems quantify over every link table, the correspondence run does not change it between ticks); client order ids and order ids are numerals, strategy id is fixed; inactive "
+    "order snapshots are Cancelled only; client order ids 9000-9099 are reserved for the injected close-position id generator",
     "cancel_orders iterates a hash map: the order of the cancel requests it generates within one instrument is canonicalised (sorted by client order id) on both sides",
     "examined boundary (DESIGN F8): when an algo send fails fatally the audit carries the errors but omits the AlgoOrders output although the healthy part was delivered and marked in flight; "
     "the property demands reported-sent => delivered, which holds (audit_algo_is_generated)",
